@@ -14,12 +14,19 @@
 (* Merge and persist share the merger goroutine (mpc is one program counter).   *)
 (* FixedAlter = FALSE is the behaviour before fix 11d5163 (new index overlays   *)
 (* sized from the build snapshot): LayersParallel and ReopenSeesAll fail.       *)
+(* A layer is a record [a |-> rows added, d |-> rows deleted]; ixbuf.Merge's    *)
+(* Combine rules are Fold: add then delete cancels, delete then add of the same *)
+(* row keeps the stored entry. FirstOnlyModified = TRUE is the behaviour before  *)
+(* fix c9087ac (persist skips a table unless its FIRST index has a non-empty     *)
+(* base layer): ReopenSeesAll and DurableIndexesAgree fail.                      *)
 (* C06: IndexesAgree, LayersParallel; C16: IndexesAgree (=NoLossNoDup),         *)
 (* StatsExact in every state; C04: ReopenSeesAll.                               *)
 EXTENDS Integers, Sequences, FiniteSets, TLC
-CONSTANTS MaxRows, ChanCap, FixedAlter, MaxPersists
+CONSTANTS MaxRows, ChanCap, FixedAlter, MaxPersists, MaxDeletes, FirstOnlyModified
 
 VARIABLES rows,      \* committed logical content (set of row ids)
+          ndel,      \* number of delete transactions so far
+          nextRow,   \* next fresh row id
           ixs,       \* set of existing index names
           bt,        \* [index -> set of rows] stored btree content
           layers,    \* [index -> Seq(set of rows)] layers[1] is the base ixbuf
@@ -30,17 +37,25 @@ VARIABLES rows,      \* committed logical content (set of row ids)
           alter,     \* AlterCreate progress record
           npersist, durable
 
-vars == <<rows, ixs, bt, layers, deltas, nrows, btreeNrows, chan, mpc, alter, npersist, durable>>
+vars == <<rows, ndel, nextRow, ixs, bt, layers, deltas, nrows, btreeNrows, chan, mpc, alter, npersist, durable>>
 Idx == {"i1", "i2"}
 
-RECURSIVE UnionSeq(_)
-UnionSeq(s) == IF s = <<>> THEN {} ELSE Head(s) \cup UnionSeq(Tail(s))
-Flatten(i) == bt[i] \cup UnionSeq(layers[i])
+Empty == [a |-> {}, d |-> {}]
+IsEmpty(l) == l.a = {} /\ l.d = {}
+\* combine layer l2 on top of l1 (ixbuf.Merge / Combine)
+Comb(l1, l2) == [a |-> (l1.a \ l2.d) \cup (l2.a \ l1.d),
+                 d |-> (l1.d \ l2.a) \cup (l2.d \ l1.a)]
+RECURSIVE Fold(_)
+Fold(s) == IF s = <<>> THEN Empty ELSE IF Len(s) = 1 THEN s[1]
+           ELSE Fold(<<Comb(s[1], s[2])>> \o SubSeq(s, 3, Len(s)))
+ApplyL(b, l) == (b \ l.d) \cup l.a
+Flatten(i) == ApplyL(bt[i], Fold(layers[i]))
 Sum(s) == IF s = <<>> THEN 0 ELSE LET RECURSIVE F(_) F(x) == IF x = <<>> THEN 0 ELSE Head(x) + F(Tail(x)) IN F(s)
 
 Init == /\ rows = {} /\ ixs = {"i1"}
         /\ bt = [i \in Idx |-> {}]
-        /\ layers = [i \in Idx |-> << {} >>]
+        /\ layers = [i \in Idx |-> << Empty >>]
+        /\ ndel = 0 /\ nextRow = 1
         /\ deltas = << 0 >>
         /\ nrows = 0 /\ btreeNrows = 0
         /\ chan = <<>>
@@ -51,15 +66,27 @@ Init == /\ rows = {} /\ ixs = {"i1"}
 Exclusive == alter.pc \in {"excl", "built", "queued"}
 
 Commit == /\ ~Exclusive
-          /\ Cardinality(rows) < MaxRows
+          /\ nextRow <= MaxRows
           /\ Len(chan) < ChanCap
-          /\ LET r == Cardinality(rows) + 1 IN
+          /\ LET r == nextRow IN
              /\ rows' = rows \cup {r}
-             /\ layers' = [i \in Idx |-> IF i \in ixs THEN Append(layers[i], {r}) ELSE layers[i]]
+             /\ nextRow' = nextRow + 1
+             /\ layers' = [i \in Idx |-> IF i \in ixs THEN Append(layers[i], [a |-> {r}, d |-> {}]) ELSE layers[i]]
              /\ deltas' = Append(deltas, 1)
              /\ nrows' = nrows + 1
              /\ chan' = Append(chan, "m")
-          /\ UNCHANGED <<ixs, bt, btreeNrows, mpc, alter, npersist, durable>>
+          /\ UNCHANGED <<ndel, ixs, bt, btreeNrows, mpc, alter, npersist, durable>>
+
+\* a committed transaction deleting one visible row from every index
+CommitDelete == /\ ~Exclusive /\ ndel < MaxDeletes /\ Len(chan) < ChanCap
+                /\ \E r \in rows :
+                     /\ rows' = rows \ {r}
+                     /\ layers' = [i \in Idx |-> IF i \in ixs THEN Append(layers[i], [a |-> {}, d |-> {r}]) ELSE layers[i]]
+                /\ deltas' = Append(deltas, -1)
+                /\ nrows' = nrows - 1
+                /\ ndel' = ndel + 1
+                /\ chan' = Append(chan, "m")
+                /\ UNCHANGED <<nextRow, ixs, bt, btreeNrows, mpc, alter, npersist, durable>>
 
 \* merger takes 1..k consecutive merge todos from the head (drain takes what is there)
 MergerTake == /\ mpc.pc = "idle" /\ chan # <<>> /\ Head(chan) = "m"
@@ -67,12 +94,12 @@ MergerTake == /\ mpc.pc = "idle" /\ chan # <<>> /\ Head(chan) = "m"
                     /\ \A j \in 1..n : chan[j] = "m"
                     /\ chan' = SubSeq(chan, n + 1, Len(chan))
                     /\ mpc' = [pc |-> "taken", n |-> n]
-              /\ UNCHANGED <<rows, ixs, bt, layers, deltas, nrows, btreeNrows, alter, npersist, durable>>
+              /\ UNCHANGED <<rows, ndel, nextRow, ixs, bt, layers, deltas, nrows, btreeNrows, alter, npersist, durable>>
 
 MergeCompute == /\ mpc.pc = "taken"
                 /\ mpc' = [pc |-> "merged", n |-> mpc.n,
-                           res |-> [i \in ixs |-> UnionSeq(SubSeq(layers[i], 1, mpc.n + 1))]]
-                /\ UNCHANGED <<rows, ixs, bt, layers, deltas, nrows, btreeNrows, chan, alter, npersist, durable>>
+                           res |-> [i \in ixs |-> Fold(SubSeq(layers[i], 1, mpc.n + 1))]]
+                /\ UNCHANGED <<rows, ndel, nextRow, ixs, bt, layers, deltas, nrows, btreeNrows, chan, alter, npersist, durable>>
 
 MergeApply == /\ mpc.pc = "merged"
               /\ LET n == mpc.n IN
@@ -81,51 +108,56 @@ MergeApply == /\ mpc.pc = "merged"
                                  ELSE layers[i]]
                  /\ deltas' = << Sum(SubSeq(deltas, 1, n + 1)) >> \o SubSeq(deltas, n + 2, Len(deltas))
               /\ mpc' = [pc |-> "idle"]
-              /\ UNCHANGED <<rows, ixs, bt, nrows, btreeNrows, chan, alter, npersist, durable>>
+              /\ UNCHANGED <<rows, ndel, nextRow, ixs, bt, nrows, btreeNrows, chan, alter, npersist, durable>>
+
+\* Meta.Persist: is this table saved?
+Modified == IF FirstOnlyModified THEN ~IsEmpty(layers["i1"][1])
+            ELSE \E i \in ixs : ~IsEmpty(layers[i][1])
 
 PersistCompute == /\ mpc.pc = "idle" /\ npersist < MaxPersists
-                  /\ \E i \in ixs : layers[i][1] # {}     \* Modified()
-                  /\ mpc' = [pc |-> "saved", res |-> [i \in ixs |-> bt[i] \cup layers[i][1]]]
-                  /\ UNCHANGED <<rows, ixs, bt, layers, deltas, nrows, btreeNrows, chan, alter, npersist, durable>>
+                  /\ Modified
+                  /\ mpc' = [pc |-> "saved", res |-> [i \in ixs |-> ApplyL(bt[i], layers[i][1])]]
+                  /\ UNCHANGED <<rows, ndel, nextRow, ixs, bt, layers, deltas, nrows, btreeNrows, chan, alter, npersist, durable>>
 
 PersistApply == /\ mpc.pc = "saved"
                 /\ bt' = [i \in Idx |-> IF i \in DOMAIN mpc.res THEN mpc.res[i] ELSE bt[i]]
-                /\ layers' = [i \in Idx |-> IF i \in DOMAIN mpc.res THEN << {} >> \o Tail(layers[i]) ELSE layers[i]]
+                /\ layers' = [i \in Idx |-> IF i \in DOMAIN mpc.res THEN << Empty >> \o Tail(layers[i]) ELSE layers[i]]
                 /\ btreeNrows' = btreeNrows + deltas[1]
                 /\ deltas' = << 0 >> \o Tail(deltas)
                 /\ npersist' = npersist + 1
                 /\ durable' = Append(durable, [i \in ixs |-> bt'[i]])
                 /\ mpc' = [pc |-> "idle"]
-                /\ UNCHANGED <<rows, ixs, nrows, chan, alter>>
+                /\ UNCHANGED <<rows, ndel, nextRow, ixs, nrows, chan, alter>>
 
 AlterBegin == /\ alter.pc = "none" /\ rows # {}
               /\ alter' = [pc |-> "excl"]
-              /\ UNCHANGED <<rows, ixs, bt, layers, deltas, nrows, btreeNrows, chan, mpc, npersist, durable>>
+              /\ UNCHANGED <<rows, ndel, nextRow, ixs, bt, layers, deltas, nrows, btreeNrows, chan, mpc, npersist, durable>>
 
 AlterBuild == /\ alter.pc = "excl"
               /\ alter' = [pc |-> "built", nl |-> Len(layers["i1"]), content |-> Flatten("i1")]
-              /\ UNCHANGED <<rows, ixs, bt, layers, deltas, nrows, btreeNrows, chan, mpc, npersist, durable>>
+              /\ UNCHANGED <<rows, ndel, nextRow, ixs, bt, layers, deltas, nrows, btreeNrows, chan, mpc, npersist, durable>>
 
 AlterQueue == /\ alter.pc = "built" /\ Len(chan) < ChanCap
               /\ chan' = Append(chan, "fn")
               /\ alter' = [alter EXCEPT !.pc = "queued"]
-              /\ UNCHANGED <<rows, ixs, bt, layers, deltas, nrows, btreeNrows, mpc, npersist, durable>>
+              /\ UNCHANGED <<rows, ndel, nextRow, ixs, bt, layers, deltas, nrows, btreeNrows, mpc, npersist, durable>>
 
 MergerRunFn == /\ mpc.pc = "idle" /\ chan # <<>> /\ Head(chan) = "fn"
                /\ chan' = Tail(chan)
                /\ ixs' = ixs \cup {"i2"}
                /\ bt' = [bt EXCEPT !["i2"] = alter.content]
                /\ LET nl == IF FixedAlter THEN Len(layers["i1"]) ELSE alter.nl IN
-                  layers' = [layers EXCEPT !["i2"] = [j \in 1..nl |-> {}]]
+                  layers' = [layers EXCEPT !["i2"] = [j \in 1..nl |-> Empty]]
                /\ alter' = [pc |-> "done"]
-               /\ UNCHANGED <<rows, deltas, nrows, btreeNrows, mpc, npersist, durable>>
+               /\ UNCHANGED <<rows, ndel, nextRow, deltas, nrows, btreeNrows, mpc, npersist, durable>>
 
+\* the final persist also goes through Meta.Persist (same Modified test)
 CleanClose == /\ chan = <<>> /\ mpc.pc = "idle" /\ alter.pc \in {"none", "done"} /\ npersist < 99
-              /\ bt' = [i \in Idx |-> IF i \in ixs THEN bt[i] \cup layers[i][1] ELSE bt[i]]
-              /\ layers' = [i \in Idx |-> << {} >> \o Tail(layers[i])]
+              /\ bt' = [i \in Idx |-> IF i \in ixs /\ Modified THEN ApplyL(bt[i], layers[i][1]) ELSE bt[i]]
+              /\ layers' = [i \in Idx |-> IF Modified THEN << Empty >> \o Tail(layers[i]) ELSE layers[i]]
               /\ npersist' = 99
-              /\ UNCHANGED <<rows, ixs, deltas, nrows, btreeNrows, chan, mpc, alter, durable>>
-NextOpen == Commit \/ MergerTake \/ MergeCompute \/ MergeApply \/ PersistCompute \/ PersistApply
+              /\ UNCHANGED <<rows, ndel, nextRow, ixs, deltas, nrows, btreeNrows, chan, mpc, alter, durable>>
+NextOpen == Commit \/ CommitDelete \/ MergerTake \/ MergeCompute \/ MergeApply \/ PersistCompute \/ PersistApply
         \/ AlterBegin \/ AlterBuild \/ AlterQueue \/ MergerRunFn
 Next == CleanClose \/ (npersist < 99 /\ NextOpen)
 Spec == Init /\ [][Next]_vars
@@ -134,8 +166,11 @@ LayersParallel == \A i \in ixs : Len(layers[i]) = Len(deltas)
 IndexesAgree == \A i \in ixs : Flatten(i) = rows
 StatsExact == nrows = Cardinality(rows) /\ btreeNrows + Sum(deltas) = nrows
 \* when everything is merged and persisted, every index's btree holds all rows
-Quiescent == chan = <<>> /\ mpc.pc = "idle" /\ \A i \in ixs : Len(layers[i]) = 1 /\ layers[i][1] = {}
+Quiescent == chan = <<>> /\ mpc.pc = "idle" /\ \A i \in ixs : Len(layers[i]) = 1 /\ IsEmpty(layers[i][1])
 DurableAgree == \A k \in 1..Len(durable) : \A i, j \in DOMAIN durable[k] : TRUE
 ReopenSeesAll == npersist = 99 => \A i \in ixs : bt[i] = rows
+\* what a crash / reopen at the last state record shows: the stored btrees of all indexes
+\* of a table hold the same rows (the persisted state is itself consistent)
+DurableIndexesAgree == \A k \in 1..Len(durable) : \A i, j \in DOMAIN durable[k] : durable[k][i] = durable[k][j]
 BtreeCount == \A i \in ixs : Quiescent => bt[i] = rows
 =============================================================================
